@@ -500,7 +500,7 @@ package asm
 //@ # irFastMathFlags translates the written flags one by one, in order, into a new slice (the keyword parser is a pure
 //@ # function of the keyword: asm/enum, C18) and touches nothing else.
 //@ func irFastMathFlags
-//@   props C04 C05
+//@   props C04 C05 C18
 //@   assigns nothing
 //@   ensures len(result) == len(olds) && (len(olds) == 0 || fresh(result))
 //@   ensures forall(k, 0, len(olds), result[k] == enum.FastMathFlagFromString(olds[k].Text()))
